@@ -55,3 +55,24 @@ pub fn iter_find<'a, T, F: Fn(&&'a T) -> bool>(v: &'a Vec<T>, f: F) -> (r: Optio
         None => forall|j: int| 0 <= j < v.len() ==> f.ensures((&&#[trigger] v[j],), false),
     }
 { v.iter().find(f) }
+// BTreeSet::last(): the greatest element
+#[verifier::external_body]
+pub fn btreeset_last(s: &BTreeSet<u64>) -> (r: Option<&u64>)
+    ensures r is None ==> s@.len() == 0 && forall|y: u64| !s@.contains(y),
+            r is Some ==> s@.contains(*r->Some_0) && forall|y: u64| s@.contains(y) ==> y <= *r->Some_0,
+{ s.last() }
+// Option::map / unwrap_or with an annotated closure (R11)
+#[verifier::external_body]
+pub fn opt_map<T, U, F: FnOnce(T) -> U>(o: Option<T>, f: F) -> (r: Option<U>)
+    requires o is Some ==> f.requires((o->Some_0,))
+    ensures o is None ==> r is None, o is Some ==> r is Some && f.ensures((o->Some_0,), r->Some_0)
+{ o.map(f) }
+// A2: `x.log2().ceil() as usize` (libm log2 exact on powers of two; saturating float->int cast; finite doubles are below 2^1024)
+#[verifier::external_body]
+pub fn ceil_log2_usize(x: F64) -> (r: usize)
+    ensures
+        x@ is PosInf ==> r == usize::MAX,
+        x@ is NaN || x@ is NegInf ==> r == 0,
+        x@ is Fin && x@->Fin_0 <= 1real ==> r == 0,
+        x@ is Fin && x@->Fin_0 > 1real ==> 1 <= r <= 1024 && rpow(2real, (r - 1) as nat) < x@->Fin_0 <= rpow(2real, r as nat),
+{ x.v.log2().ceil() as usize }
